@@ -129,6 +129,19 @@ int main(int argc, char **argv) {
                 if (z != y) out.viol("conversion:periodic", J().u("x", x).d("d", d).i("k", k).i("dtot32_d", y).i("dtot32_d_plus_k", z));
             }
         }
+        // periodicity far from the origin: reals j/2^f + k that are exact doubles (f fractional bits, |k| up to 2^(52-f))
+        if (shard == 0) {
+            struct FK { int f; double k; } fks[] = {{20, 2147483647.0}, {20, -2147483648.0}, {16, 2147483648.0}, {16, 4294967301.0}, {16, -8589934592.0}, {16, 34359738368.0},
+                                                    {12, 1099511627776.0}, {12, -1099511627775.0}, {8, 17592186044416.0}, {4, 281474976710656.0}, {4, -281474976710655.0}, {1, 2251799813685248.0}};
+            for (auto &fk: fks) for (int t = 0; t < 20000; t++) {
+                uint32_t j = (uint32_t) rng.below(1ull << fk.f);
+                double d = ldexp((double) j, -fk.f);
+                Torus32 want = (Torus32) (j << (32 - fk.f)), got = dtot32(d + fk.k), base = dtot32(d);
+                out.evaluations++;
+                if (got != want || base != want) { out.viol("conversion:periodic-far", J().d("d", d).d("k", fk.k).i("fraction_bits", fk.f).i("dtot32_d_plus_k", got).i("dtot32_d", base).i("expected", want)); break; }
+            }
+            out.cell("conv:periodicity-far(|k| up to 2^51)");
+        }
         snprintf(cell, sizeof cell, "conv:%s", lg == 32 ? "all-2^32" : "stratified"); out.cell(cell, hi - lo);
         out.cell("conv:periodicity");
         out.sample(J().s("mode", "conv").i("log2count", lg).u("lo", lo).u("hi", hi));
